@@ -53,7 +53,7 @@ func (im *Importer) typeOf(rt reflect.Type) types.Type {
 	case reflect.String:
 		return types.Typ[types.String]
 	case reflect.Ptr:
-		return types.NewPointer(im.typeOf(rt.Elem()))
+		return ptrTo(im.typeOf(rt.Elem()))
 	case reflect.Slice:
 		return types.NewSlice(im.typeOf(rt.Elem()))
 	case reflect.Map:
